@@ -17,6 +17,15 @@ pub mod util;
 #[cfg(test)]
 mod tests;
 
+/// re-exports of private handlers for the verification harness
+#[cfg(feature = "verif-hooks")]
+pub mod verif_exports {
+    pub use super::handlers::{
+        handle_changes, handle_gossip_to_send, handle_notifications, handle_sync,
+        spawn_gossipserver_handler, spawn_rtt_handler,
+    };
+}
+
 use bytes::Bytes;
 use klukai_types::api::QueryEventMeta;
 use std::{collections::HashMap, sync::Arc, time::Duration};
